@@ -76,7 +76,9 @@ GDom(f) == CASE f = "name"         -> Scalar \cup {"dupOther"}
              \* u64 9223372036854775808 (an integer for YAML, too large for Go's int); huge 99999999999999999999 (a float)
              [] f = "limit"        -> {"absent", "ok", "empty", "str", "quotedInt", "float", "neg", "bool", "seq", "map", "null", "dup",
                                        "zero", "hex", "exp", "u64", "huge"}
-             [] f = "labels"       -> MapSt \cup TemplateSt \cup TemplateOkSt \cup {"valueTemplate"}
+             \* tier*: the group has a second label `tier` no rule of the vocabulary overrides:
+             \*        tierBadTemplate  tier: "{{ $nope }}"      tierValueTemplate  tier: "{{ $value }}"
+             [] f = "labels"       -> MapSt \cup TemplateSt \cup TemplateOkSt \cup {"valueTemplate", "tierBadTemplate", "tierValueTemplate"}
              [] f = "rules"        -> {"ok", "absent", "null", "emptyList", "int", "str", "map", "bool", "dup"}
              \* ok warn; badValue maybe; int 1; null
              [] f = "partial_response_strategy" -> {"absent", "ok", "badValue", "int", "null"}
@@ -85,7 +87,8 @@ GDom(f) == CASE f = "name"         -> Scalar \cup {"dupOther"}
 \* utf8: "job:üp" / "Über alert"; dot: job.up
 RDom(f) == CASE f = "record"          -> Scalar \cup {"braces", "space", "utf8", "dot"}
              [] f = "alert"           -> Scalar \cup {"utf8"}
-             [] f = "expr"            -> Scalar \cup {"badPromql"}
+             \* blank: " " - not empty for YAML or for the required-key test, but no PromQL expression
+             [] f = "expr"            -> Scalar \cup {"badPromql", "blank"}
              [] f = "for"             -> Scalar \cup {"badDur", "zero"}
              [] f = "keep_firing_for" -> Scalar \cup {"badDur", "zero"}
              [] f = "labels"          -> MapSt \cup TemplateSt \cup TemplateOkSt \cup {"valueTemplate"}
@@ -320,8 +323,11 @@ GroupLabelSeen(d) == GroupLabelsSet(d) /\ ~RuleHasTeam(Eff(d.r).labels)
 PintChecks(d) ==
   LET r == Eff(d.r)
       alerting == Present(r.alert)
-      syntax == r.expr = "badPromql"
-      gl == IF GroupLabelSeen(d) THEN d.g.labels ELSE "ok" IN
+      syntax == r.expr \in {"badPromql", "blank"}
+      \* the group's `team` label is seen unless the rule overrides it, its `tier` label always
+      gl == IF GroupLabelsSet(d) /\ d.g.labels = "tierBadTemplate" THEN "badTemplate"
+            ELSE IF GroupLabelsSet(d) /\ d.g.labels = "tierValueTemplate" THEN "valueTemplate"
+            ELSE IF GroupLabelSeen(d) THEN d.g.labels ELSE "ok" IN
   (IF syntax THEN {"check:syntax"} ELSE {})
   \* checkTemplateSyntax: ParseTest, then Expand - every text that fails to parse or to execute is Fatal
   \cup (IF alerting /\ ~syntax /\ (r.labels \in TemplateSt \/ r.annotations \in TemplateSt \/ gl \in TemplateSt)
@@ -333,8 +339,8 @@ PintChecks(d) ==
 \* the sibling rule (r2) is valid and has no labels of its own: an alerting sibling sees every group label
 SiblingChecks(d) ==
   IF d.r2 # "absent" /\ d.kind = "alerting" /\ GroupLabelsSet(d)
-  THEN (IF d.g.labels \in TemplateSt THEN {"check:template"} ELSE {})
-       \cup (IF d.g.labels = "valueTemplate" THEN {"check:template:value"} ELSE {})
+  THEN (IF d.g.labels \in TemplateSt \cup {"tierBadTemplate"} THEN {"check:template"} ELSE {})
+       \cup (IF d.g.labels \in {"valueTemplate", "tierValueTemplate"} THEN {"check:template:value"} ELSE {})
   ELSE {}
 
 \* --- discovery.readRules + GetChecksForEntry: stage codes of every problem with severity >= Bug
@@ -382,7 +388,7 @@ PromRuleOK(d) ==
        \* Rule.Validate
        /\ ~(recSet /\ alrSet)
        /\ (recSet \/ alrSet)
-       /\ StrNonEmpty(r.expr) /\ r.expr # "badPromql"
+       /\ StrNonEmpty(r.expr) /\ r.expr \notin {"badPromql", "blank"}
        /\ (recSet => /\ ~MapNonEmpty(r.annotations)
                      /\ ~DurNonZero(r.for)
                      /\ ~DurNonZero(r.keep_firing_for)
